@@ -28,6 +28,7 @@ RULES = {
     'R5': 'exact decision table (path-condition DNF) of get_stable_child; documented depth-bound formula; threshold handed over without `as`; Depth arithmetic, depth recursions and difficulty provenance as atoms',
     'R6': 'loop shape: peek re-evaluated until None within one call; heartbeat always runs the ingestion loop (no fast path)',
     'R7': 'no non-heartbeat entry point writes a field read by the stability decision',
+    'R8': "the candidate child is chosen by the selector's order (difficulty, length, first received): sort key of get_stable_child vs the tie-break table of main_chain_by_difficulty (C02.R3)",
 }
 ASSUMPTIONS = []
 UB = 'ic_btc_canister::unstable_blocks::'
@@ -222,6 +223,7 @@ def r5(ctx):
     lst = [c for c in f.calls() if not c.cleanup and c.matches('core::slice::last')]
     ctx.check(bool(srt) and bool(lst) and g.dominates(srt[0].bb, lst[0].bb), 'R5', 'deepest-is-max', srt[0] if srt else f,
               'children are sorted by difficulty-based depth before the deepest (last) is taken', 'deepest child is taken from an unsorted list')
+    tie_break(ctx, f, srt)
     # T
     # the documented adaptive depth bound itself: min(threshold, MAX - 1) from MAX_UNSTABLE_BLOCKS unstable
     # blocks on, linear interpolation MAX -> that minimum below (never less than the minimum)
@@ -337,6 +339,43 @@ def r7(ctx):
                         'stabilise, the later pop re-decides with the new value, may return None, and `pop(..).unwrap()` then traps every heartbeat' % (name, fld, w.short))
             if not hit:
                 ctx.ok('R7', 'interference:%s@%s' % (fld, name), '', '`%s` cannot write `%s`' % (name, fld), nontrivial=bool(wroots))
+
+
+def tie_break(ctx, f, srt):
+    """R8 (F13): the candidate the decision is about is the child the served chain goes through. The selector
+    (`main_chain_by_difficulty`) orders children by (accumulated difficulty, length) and keeps the first
+    received on a full tie (strict `>`; C02.R3). `get_stable_child` takes the last element of a *stable* sort:
+    if the sort key is the difficulty alone, two children with equal accumulated difficulty are ranked by
+    arrival order (the later one wins), so for the same tree the testnet/regtest depth rule is evaluated on
+    one child or the other depending on which fork arrived first, and the anchor advances in one arrival
+    order and not in the other. Rule: the sort key has the selector's three components — difficulty, then the
+    child's length, then the child's position reversed (earlier = greater)."""
+    prog = ctx.prog
+    if not srt:
+        ctx.unknown('R8', 'candidate-order-agrees-with-selector', f, 'sort of the children by difficulty not found in get_stable_child')
+        return
+    c = srt[0]
+    ks = [prog.fns[k] for k in c.closure_args() if k in prog.fns] if c.closure_args() else []
+    if not ks:
+        e = ex(prog, f)
+        ks = [prog.fns[x[1]] for a in c.args for x in walk(e.operand(a)) if isinstance(x, tuple) and x[0] == 'closure' and x[1] in prog.fns]
+    if len(ks) != 1:
+        ctx.unknown('R8', 'candidate-order-agrees-with-selector', c, 'sort key closure of get_stable_child not found (%d)' % len(ks))
+        return
+    k = ks[0]
+    ctx.touch(k)
+    r = ex(prog, k).local(0)
+    ELT = lambda n: P.field(n, P.param())           # component n of the (difficulty, index) element
+    DIFF = ELT('0')
+    CHILD = P.index(P.has(P.call('*::children', P.anything)), ELT('1'))
+    LEN = P.call('ic_btc_canister::blocktree::BlockTree::depth', P.has(CHILD))
+    FIRST = P.agg(adt_suffix='Reverse', _0=ELT('1'))
+    comps = [v for _, v in r[4]] if isinstance(r, tuple) and r[0] == 'agg' and r[1] == 'tuple' else [r]
+    good = len(comps) == 3 and DIFF(comps[0]) and LEN(comps[1]) and FIRST(comps[2])
+    ctx.check(good, 'R8', 'candidate-order-agrees-with-selector', k,
+              'children are ranked by (accumulated difficulty, length, first received) — the order of the best-chain selector — before the deepest is taken',
+              'children are ranked by %s only: with equal accumulated difficulty the later-received child is the candidate whatever its length, while the served chain prefers the longer / earlier one — '
+              'whether the anchor advances depends on the arrival order of the forks' % ' / '.join(show(x)[:60] for x in comps))
 
 
 # plumbing between the interface and the analysed functions (rules/plumbing.py)
